@@ -163,6 +163,29 @@ theorem bisect_queries_nodup (n : Nat) (v : Nat → Bool) (hn : 1 ≤ n) :
 example : (checkBisect 7 (fun _ => true)).queries = [7, 3, 1, 5, 2, 4, 6] := by
   simp [checkBisect, checkBisectGen, bisectLoop, push]
 
+/-- [AF] the two-argument check stops at the first invalid answer: on failure the last index asked
+is invalid and every index asked before it was valid. -/
+theorem bisect_stops_at_first_invalid (n : Nat) (v : Nat → Bool)
+    (h : (checkBisect n v).verdict = false) :
+    ∃ pre j, (checkBisect n v).queries = pre ++ [j] ∧ v j = false ∧ ∀ i ∈ pre, v i = true := by
+  unfold checkBisect at h ⊢
+  rw [checkBisectGen_eq] at h ⊢
+  by_cases hv : v n = true
+  · simp only [hv, Bool.not_true, Bool.false_eq_true, if_false] at h ⊢
+    cases hb : (bisPart n v).1 with
+    | true => rw [hb] at h; simp at h
+    | false =>
+      obtain ⟨pre, j, e, hj, hpre⟩ := bisPart_fail n v hb
+      refine ⟨n :: pre, j, by simp [e], hj, ?_⟩
+      intro i hi
+      rcases List.mem_cons.1 hi with rfl | hi
+      · exact hv
+      · exact hpre i hi
+  · exact ⟨[], n, by simp [hv], by simpa using hv, by simp⟩
+
+example : (checkBisect 7 (fun j => j != 5)).queries = [7, 3, 1, 5] := by
+  simp [checkBisect, checkBisectGen, bisectLoop, push]
+
 /-- [AF] both forms of the check always agree on the verdict. -/
 theorem forms_agree (n : Nat) (v : Nat → Bool) :
     (checkLinear n v).verdict = (checkBisect n v).verdict := by
